@@ -79,9 +79,18 @@ macro_rules! record {
             }
             o
         };
+        let vbb: Vec<u8> = {
+            let mut xm = x;
+            let view = ByteValued::as_bytes(&mut xm);
+            let mut o = vec![0u8; view.len()];
+            view.read_slice(&mut o, 0).expect("harness: read through as_bytes");
+            o
+        };
         json!({
             "gm": gmb, "arr": arrb, "cf": cfb,
             "mem": ByteValued::as_slice(&x),
+            // the volatile view of the object itself (ByteValued::as_bytes): exactly the object's bytes, nothing more
+            "vb": vbb,
             "native": native.to_be_bytes(),
             "into": via_into.to_be_bytes(),
             "eq_self": x == v, "eq_self_rev": v == x,
